@@ -1,4 +1,6 @@
 import NTV.Proofs.Lemmas.LllOpsProofs
+import NTV.Proofs.Lemmas.EnumCheckMain
+import NTV.Proofs.Lemmas.LllCheck
 /-! # C20 — LLL / short vectors / roots of unity: what is proved.
 Floating point is not modelled. The theorem below covers the two clauses of the property that do not
 depend on `f64` decisions (H unimodular, B' = H·B); reducedness of the implementation's outputs, the
@@ -23,5 +25,166 @@ example : ∀ op ∈ [Op.red 1 0 3, Op.swap 0], OpValid 2 op := by
   intro op h
   simp only [List.mem_cons, List.mem_nil_iff, or_false] at h
   rcases h with rfl | rfl <;> simp [OpValid]
+
+end NTV.C20
+
+/-! # C20 — soundness of the exact checkers (grade "checker")
+
+The floating-point routines are judged per explored case by the executable rational checkers of
+`NTV.Spec.Enum`, `NTV.Spec.Lll` and `NTV.Spec.Mat`. The theorems below prove that these checkers decide
+exactly the mathematical notions (Mathlib matrices via `NTV.RowOps.toM`, sums over `Fin n`), for every
+input of every size. -/
+namespace NTV.C20
+open Matrix
+open NTV.RowOps (toM Rect ent)
+open NTV.Spec.Enum NTV.Spec.Mat
+open NTV.EnumCheck (IsPosDefForm NonZero)
+
+/-! ## K1 — short vectors: `quadVal`, `floorSqrt`, `inverse`, `isPosDef`, `box`, `shortVectors` -/
+
+/-- `quadVal Q x = xᵀQx = Σ_i Σ_j x_i Q_ij x_j` for an `n × n` rational `Q` and `x ∈ ℤⁿ` -/
+theorem quadVal_checker (Q : QMat) (x : List Int) (n : Nat) (hr : Rect n n Q) (hx : x.length = n) :
+    quadVal Q x = ∑ i : Fin n, ∑ j : Fin n, ((x.getD i 0 : ℤ) : ℚ) * ent Q i j * ((x.getD j 0 : ℤ) : ℚ) := by
+  rw [NTV.EnumCheck.quadVal_spec Q x n hr hx, NTV.EnumCheck.qf_eq_sum]; rfl
+
+/-- `floorSqrt r = ⌊√r⌋` for rational `r ≥ 0`: `k² ≤ r < (k+1)²` -/
+theorem floorSqrt_checker (r : ℚ) (hr : 0 ≤ r) :
+    ((floorSqrt r : ℕ) : ℚ) ^ 2 ≤ r ∧ r < ((floorSqrt r : ℕ) + 1 : ℚ) ^ 2 :=
+  NTV.EnumCheck.floorSqrt_spec r hr
+
+/-- Gauss–Jordan `inverse`: a returned matrix is the two-sided inverse; `none` exactly for singular `Q` -/
+theorem inverse_checker (Q : QMat) (n : Nat) (hr : Rect n n Q) :
+    (∀ Qi, inverse Q = some Qi →
+        Rect n n Qi ∧ toM n n Qi * toM n n Q = 1 ∧ toM n n Q * toM n n Qi = 1) ∧
+    (inverse Q = none ↔ (toM n n Q).det = 0) := by
+  refine ⟨fun Qi h => ⟨(NTV.EnumCheck.inverse_spec Q Qi n hr h).1, (NTV.EnumCheck.inverse_spec Q Qi n hr h).2,
+    NTV.EnumCheck.inverse_spec_right Q Qi n hr h⟩, ?_⟩
+  have h := NTV.EnumCheck.inverse_isSome_iff Q n hr
+  constructor
+  · exact NTV.EnumCheck.inverse_none Q n hr
+  · intro hd
+    cases hq : inverse Q with
+    | none => rfl
+    | some Qi => rw [hq] at h; exact absurd hd (h.mp rfl)
+
+/-- **Sylvester's criterion is exact**: `isPosDef Q = true` iff `Q` is square (`n = Q.length` rows of
+length `n`), symmetric, and `xᵀQx > 0` for every non-zero rational vector `x` (Sylvester's criterion over
+ℚ is proved in `EnumCheckSylv.lean`; `qdet` is the Mathlib determinant by `MatCheck.qdet_spec`) -/
+theorem isPosDef_checker (Q : QMat) :
+    isPosDef Q = true ↔
+      Rect Q.length Q.length Q ∧ (∀ i j : Fin Q.length, ent Q i j = ent Q j i) ∧
+        ∀ x : Fin Q.length → ℚ, x ≠ 0 → 0 < ∑ i : Fin Q.length, ∑ j : Fin Q.length, x i * ent Q i j * x j :=
+  NTV.EnumCheck.isPosDef_iff Q
+
+/-- **box completeness** (Cauchy–Schwarz in the `Q` inner product): for a form accepted by `isPosDef`
+the box exists for every `c`, its `i`-th bound is `⌊√(c·(Q⁻¹)_ii)⌋` for the true inverse, and every
+integer vector with `xᵀQx ≤ c` has `|x_i| ≤ b_i` for all `i` -/
+theorem box_complete (Q : QMat) (hpd : isPosDef Q = true) (c : ℚ) :
+    ∃ b : List Nat, box Q c = some b ∧ b.length = Q.length ∧
+      (∃ Qi : QMat, toM Q.length Q.length Qi * toM Q.length Q.length Q = 1 ∧
+        ∀ i, i < Q.length → b.getD i 0 = floorSqrt (c * ent Qi i i)) ∧
+      ∀ x : List Int, x.length = Q.length → quadVal Q x ≤ c →
+        ∀ i, i < Q.length → (x.getD i 0).natAbs ≤ b.getD i 0 := by
+  have hf := (NTV.EnumCheck.isPosDef_iff Q).mp hpd
+  have hs := NTV.EnumCheck.box_isSome Q _ hf c
+  obtain ⟨b, hb⟩ := Option.isSome_iff_exists.mp hs
+  obtain ⟨Qi, _, h2, h3, h4⟩ := NTV.EnumCheck.box_spec Q _ hf.1 c b hb
+  refine ⟨b, hb, h3, ⟨Qi, h2, h4⟩, ?_⟩
+  intro x hx hq i hi
+  have := NTV.EnumCheck.box_complete Q _ hf c b hb x hx hq
+  exact ((NTV.EnumCheck.inBox_iff x b).mp this).2 i (h3 ▸ hi)
+
+/-- **`shortVectors` lists exactly the short vectors, each once**: for `Q` accepted by `isPosDef` and
+`box Q c = some b`,
+(1) every non-zero `x ∈ ℤⁿ` with `xᵀQx ≤ c` appears as its sign representative `canon x` with its value;
+(2) every listed pair `(v, val)` is a non-zero canonical vector of `ℤⁿ` with `val = vᵀQv ≤ c`;
+(3) no vector is listed twice, and `v`, `−v` are never both listed (only one of them is canonical). -/
+theorem shortVectors_checker (Q : QMat) (hpd : isPosDef Q = true) (c : ℚ) (b : List Nat)
+    (hb : box Q c = some b) :
+    (∀ x : List Int, x.length = Q.length → (∃ t ∈ x, t ≠ 0) → quadVal Q x ≤ c →
+        (canon x = x ∨ canon x = x.map (fun t => -t)) ∧ (canon x, quadVal Q x) ∈ shortVectors Q c b) ∧
+    (∀ p ∈ shortVectors Q c b, p.1.length = Q.length ∧ (∃ t ∈ p.1, t ≠ 0) ∧ canon p.1 = p.1 ∧
+        p.2 = quadVal Q p.1 ∧ p.2 ≤ c) ∧
+    ((shortVectors Q c b).map Prod.fst).Nodup ∧
+    (∀ p ∈ shortVectors Q c b, ∀ q ∈ shortVectors Q c b, q.1 ≠ p.1.map (fun t => -t)) := by
+  have hf := (NTV.EnumCheck.isPosDef_iff Q).mp hpd
+  refine ⟨?_, ?_, NTV.EnumCheck.nodup_shortVectors Q c b, ?_⟩
+  · intro x hx hnz hq
+    exact ⟨NTV.EnumCheck.canon_cases x, NTV.EnumCheck.shortVectors_complete Q _ hf c b hb x hx hnz hq⟩
+  · intro p hp
+    obtain ⟨h1, h2, _, h4, h5, h6⟩ := NTV.EnumCheck.shortVectors_sound Q _ hf.1 c b hb p hp
+    exact ⟨h1, h2, h4, h5, h6⟩
+  · intro p hp q hq hcon
+    have h1 := (NTV.EnumCheck.shortVectors_sound Q _ hf.1 c b hb p hp).2.2.1
+    have h2 := (NTV.EnumCheck.shortVectors_sound Q _ hf.1 c b hb q hq).2.2.1
+    have h3 := NTV.EnumCheck.isCanonical_negv p.1 h1
+    unfold NTV.EnumCheck.negv at h3
+    rw [← hcon, h2] at h3
+    exact absurd h3 (by simp)
+
+/-- non-vacuity: the form `2x² + 2xy + 3y²` is accepted, its box for `c = 3` is `[1, 1]`, and the short
+vectors are `(0,1)` (value 3), `(1,-1)` (value 3), `(1,0)` (value 2) -/
+example : isPosDef [[2, 1], [1, 3]] = true ∧ box [[2, 1], [1, 3]] 3 = some [1, 1] ∧
+    shortVectors [[2, 1], [1, 3]] 3 [1, 1] = [([0, 1], 3), ([1, -1], 3), ([1, 0], 2)] := by
+  decide +kernel
+example : ∃ b, box [[2, 1], [1, 3]] 3 = some b ∧ b.length = 2 :=
+  let ⟨b, h1, h2, _⟩ := box_complete [[2, 1], [1, 3]] (by decide +kernel) 3
+  ⟨b, h1, h2⟩
+/-- the indefinite form `x² + 4xy + y²` and a non-symmetric matrix are rejected -/
+example : isPosDef [[1, 2], [2, 1]] = false ∧ isPosDef [[1, 0], [1, 1]] = false := by decide +kernel
+
+/-! ## K2 — LLL-reducedness: `gso`, `isReduced` -/
+open NTV.Spec.Lll in
+/-- `gso B` computes the Gram–Schmidt data of the rows `b_i` of `B` (`n × m` integer matrix): with
+`b*_i = b_i − Σ_{j<i} μ_ij b*_j`, `μ_ij = ⟨b_i, b*_j⟩ / ⟨b*_j, b*_j⟩` (`NTV.LllCheck.bstar`, `gsMu`; proved
+pairwise orthogonal, with the same spans as the `b_i`: `bstar_orth`, `span_bstar`), the table `μ` has the
+entries `μ_ij` (`j < i < n`) and `Bnorm_i = ‖b*_i‖²`. -/
+theorem gso_checker (B : List (List Int)) (n m : Nat) (hr : Rect n m B) :
+    (gso B).1.length = n ∧ (∀ i, i < n → ((gso B).1.getD i []).length = i) ∧ (gso B).2.length = n ∧
+    (∀ i j, j < i → i < n → mu (gso B) i j = NTV.LllCheck.gsMu (NTV.LllCheck.rowQ m B) i j) ∧
+    (∀ i, i < n → bn (gso B) i =
+      NTV.LllCheck.bstar (NTV.LllCheck.rowQ m B) i ⬝ᵥ NTV.LllCheck.bstar (NTV.LllCheck.rowQ m B) i) ∧
+    (∀ i j, i ≠ j →
+      NTV.LllCheck.bstar (NTV.LllCheck.rowQ m B) i ⬝ᵥ NTV.LllCheck.bstar (NTV.LllCheck.rowQ m B) j = 0) ∧
+    (∀ i, NTV.LllCheck.bstar (NTV.LllCheck.rowQ m B) i = NTV.LllCheck.rowQ m B i -
+      ∑ j ∈ Finset.range i, NTV.LllCheck.gsMu (NTV.LllCheck.rowQ m B) i j •
+        NTV.LllCheck.bstar (NTV.LllCheck.rowQ m B) j) := by
+  obtain ⟨h1, h2, h3, h4, h5⟩ := NTV.LllCheck.gso_spec B hr
+  exact ⟨h1, h2, h3, h4, h5, fun i j hij => NTV.LllCheck.bstar_orth _ i j hij, fun i => NTV.LllCheck.bstar_eq _ i⟩
+
+open NTV.Spec.Lll in
+/-- **`isReduced` decides LLL-reducedness**: for an `n × m` integer matrix `B` (rows = basis) and rational
+`δ`, `η`: the checker accepts iff the rows are linearly independent over ℚ, `|μ_ij| ≤ η` for `j < i < n`,
+and `‖b*_i‖² ≥ (δ − μ_{i,i−1}²) ‖b*_{i−1}‖²` for `1 ≤ i < n`. -/
+theorem isReduced_checker (B : List (List Int)) (n m : Nat) (hr : Rect n m B) (δ η : ℚ) :
+    isReduced B δ η = true ↔
+      LinearIndependent ℚ ((toM n m B).map (Int.cast : ℤ → ℚ)).row ∧
+      (∀ i j, j < i → i < n → |NTV.LllCheck.gsMu (NTV.LllCheck.rowQ m B) i j| ≤ η) ∧
+      (∀ i, 1 ≤ i → i < n →
+        NTV.LllCheck.bstar (NTV.LllCheck.rowQ m B) i ⬝ᵥ NTV.LllCheck.bstar (NTV.LllCheck.rowQ m B) i ≥
+          (δ - NTV.LllCheck.gsMu (NTV.LllCheck.rowQ m B) i (i - 1) ^ 2) *
+            (NTV.LllCheck.bstar (NTV.LllCheck.rowQ m B) (i - 1) ⬝ᵥ
+              NTV.LllCheck.bstar (NTV.LllCheck.rowQ m B) (i - 1))) :=
+  NTV.LllCheck.isReduced_iff_toM B hr δ η
+
+/-- non-vacuity: the classical example basis is rejected, its LLL reduction accepted (δ = 3/4, η = 1/2) -/
+example : NTV.Spec.Lll.isReduced [[1, 1, 1], [-1, 0, 2], [3, 5, 6]] (3/4) (1/2) = false ∧
+    NTV.Spec.Lll.isReduced [[0, 1, 0], [1, 0, 1], [-1, 0, 2]] (3/4) (1/2) = true := by decide +kernel
+
+/-! ## K3 — `Spec.Mat`: determinant and product -/
+
+/-- `qdet` (rational elimination) is the determinant -/
+theorem qdet_checker (a : QMat) (n : Nat) (hr : Rect n n a) : qdet a = (toM n n a).det :=
+  NTV.MatCheck.qdet_spec a n hr
+/-- `det` of an integer matrix is the determinant (used for `det H = ±1` in the C20 verdict) -/
+theorem det_checker (a : IMat) (n : Nat) (hr : Rect n n a) : NTV.Spec.Mat.det a = (toM n n a).det :=
+  NTV.MatCheck.det_spec a n hr
+/-- `mul` is the matrix product (`0 < m`: the column count of the result is read off the first row of `b`) -/
+theorem mul_checker (a b : IMat) (n m k : Nat) (ha : Rect n m a) (hb : Rect m k b) (hm : 0 < m) :
+    Rect n k (NTV.Spec.Mat.mul a b) ∧ toM n k (NTV.Spec.Mat.mul a b) = toM n m a * toM m k b :=
+  NTV.MatCheck.mul_spec a b n m k ha hb hm
+
+example : NTV.Spec.Mat.det [[0, 2, 1], [1, 1, 0], [3, 0, 1]] = -5 ∧
+    NTV.Spec.Mat.mul [[1, 2, 3], [4, 5, 6]] [[1, 0], [0, 1], [2, 2]] = [[7, 8], [16, 17]] := by decide +kernel
 
 end NTV.C20
